@@ -1488,8 +1488,80 @@ pub fn check(ctx: &CheckCtx) -> Option<Found> {
     None
 }
 
+/// Byte decoder for the libFuzzer target: same domains and weights as `case_strategy`.
+fn case_from_bytes(data: &[u8]) -> Case {
+    use crate::hist::fuzzgen::Dec;
+    let mut d = Dec::new(data);
+    let size = |d: &mut Dec| match d.pickw(&[3, 4, 3, 2]) {
+        0 => d.u32r(1, 8),
+        1 => d.u32r(1, 600),
+        2 => d.u32r(600, 6000),
+        _ => d.u32r(6000, 70_000),
+    };
+    let op = |d: &mut Dec| Op { n: size(d), vec: d.pct(25), pre: d.pct(25) };
+    let ops = |d: &mut Dec| {
+        let n = d.len(0, 5);
+        (0..n).map(|_| op(d)).collect::<Vec<_>>()
+    };
+    let sndbuf = |d: &mut Dec| match d.pickw(&[1, 5, 2]) {
+        0 => 0u8,
+        1 => 1,
+        _ => d.u8r(2, 3),
+    };
+    let topo = d.u8r(0, 4);
+    let len = match d.pickw(&[1, 2, 3, 7]) {
+        0 => 0,
+        1 => d.u32r(1, 64),
+        2 => d.u32r(1, 6000),
+        _ => d.u32r(6000, MAX_LEN),
+    };
+    let pat = d.u16();
+    let sndbuf_a = sndbuf(&mut d);
+    let sndbuf_b = sndbuf(&mut d);
+    let wops = ops(&mut d);
+    let rops = ops(&mut d);
+    let srv_r = ops(&mut d);
+    let srv_w = ops(&mut d);
+    let nh = d.len(0, 4);
+    let hops = (0..nh).map(|_| size(&mut d)).collect();
+    let ns = d.len(0, 12);
+    let spurious = (0..ns).map(|_| d.pct(35)).collect();
+    let foreign = if d.pickw(&[2, 3]) == 0 {
+        vec![]
+    } else {
+        let nf = d.len(1, 16);
+        (0..nf).map(|_| d.pct(30)).collect()
+    };
+    let b_first = d.bool();
+    let gap = d.u8r(0, 3);
+    let np = d.len(1, 4);
+    let plan = (0..np).map(|_| (d.u8r(0, 3), d.u8r(0, 3))).collect();
+    Case {
+        topo,
+        len,
+        pat,
+        sndbuf_a,
+        sndbuf_b,
+        wops,
+        rops,
+        srv_r,
+        srv_w,
+        hops,
+        spurious,
+        foreign,
+        b_first,
+        gap,
+        plan,
+        pre_nb_a: d.bool(),
+        pre_nb_b: d.bool(),
+        end_a: d.u8r(0, 5),
+        end_b: d.u8r(0, 5),
+        flush: d.bool(),
+    }
+}
+
 pub fn fuzz_subs(_ctx: &CheckCtx) -> Vec<crate::fuzz::FuzzSub> {
-    vec![crate::fuzz::sub("io", case_strategy(), run_case)]
+    vec![crate::fuzz::sub("io", case_from_bytes, run_case)]
 }
 
 pub fn replay(_ctx: &CheckCtx, _sub: &str, case: serde_json::Value) -> Result<Option<Violation>, String> {
